@@ -55,6 +55,8 @@ Definition catalogue : list (string * discharge) := [
      Modelled "deser_fixed");
   ("src/fontinfo.rs|impl Deserialize<'de> for Os2PanoseV2::deserialize|guards|if values.len() != 10",
      Modelled "deser_fixed");
+  ("src/fontinfo.rs|impl NonNegativeIntegerOrFloat::new|guards|if value.is_sign_positive()",
+     Modelled "Upconv.map_abs_num");
   ("src/fontinfo.rs|impl FontInfo::from_file|unwrap|NonNegativeIntegerOrFloat::new(v.abs()).unwrap()",
      ModelLemma "C03_upconversion_abs_unwrap");
   ("src/fontinfo.rs|impl FontInfo::from_file|unwrap|NonNegativeIntegerOrFloat::new(v.abs()).unwrap()#2",
